@@ -212,6 +212,31 @@ func c11Garbage(r *vk.Reporter, id string, method byte, unordered bool, n int) (
 func TestVerif_C11(t *testing.T) {
 	r := vk.Open()
 	defer r.Close()
+	// garbage first, then ordinary traffic on several connections at once: messages that do not
+	// authenticate are dropped WITHOUT EFFECT, so the valid frames that follow (arriving concurrently
+	// on 2..4 connections) must be delivered exactly as written (C01's oracle)
+	for i := 0; i < r.Pick(12, 200); i++ {
+		id := fmt.Sprintf("garbage-then-traffic-%d", i)
+		if !r.Mine(id) {
+			continue
+		}
+		rng := r.Rand("c11g", i)
+		c := &c01Case{PreGarbage: 1 + i%5}
+		c.Cfg = rigCfg{Method: []byte{EncryptionMethodAES256GCM, EncryptionMethodChaha20Poly1305, EncryptionMethodAES128GCM}[i%3], NumConn: 2 + i%3, Seg: "all", Procs: []int{4, 16, 2}[i%3], Jitter: []int{0, 2}[i%2]}
+		c.Streams = c01Plan(rng, 4+rng.IntN(12), 1<<19)
+		c.NStream = len(c.Streams)
+		c.Sample = c.Streams[0]
+		r.Case(id, c)
+		k, d := c01Run(t, r, id, c)
+		r.Count("evaluations", 1)
+		r.Count("garbage_then_traffic_cases", 1)
+		r.Distinct("cases", vk.Hash64("gtt", c.Cfg, i))
+		if k != "" {
+			r.Violation(id, "C11:garbage-affects-later-frames", fmt.Sprintf("after %d undecodable records per connection: %s (%s); cfg %+v, %d streams", c.PreGarbage, d, k, c.Cfg, c.NStream), c)
+		} else {
+			r.Pass(id)
+		}
+	}
 	aead := []struct {
 		name string
 		id   byte
